@@ -39,9 +39,11 @@ package quic
 // and when the closing period is over both handler maps and both token maps are empty (the
 // closed stand-ins are gone). connIDGenerator.ReplaceWithClosed hands ONE id slice to every
 // registered map and every map keeps it for its expiry timer: the harness passes the slice
-// through untouched, keeps a copy, and demands after every later step that the callee did
-// not write to it (frame condition of the routing clauses: a map that edits the shared slice
-// changes what the other map replaces / removes).
+// through untouched, and, when it went to two maps, keeps a copy and demands after every
+// later step that no callee wrote to it (frame condition of the routing clauses: a map that
+// edits the shared slice changes what the other map replaces / removes). connRunners is a Go
+// map, so the real code tells the two Transports in either order: the harness forwards the
+// two calls in an order chosen by the explorer (close op, B) and explores both.
 
 import (
 	"fmt"
@@ -87,21 +89,22 @@ type c16Handed struct {
 }
 
 type c16World struct {
-	cfg    c16WorldCfg
-	tr     *Transport
-	hm     *packetHandlerMap
-	tr2    *Transport // paths: the Transport of the second path
-	hm2    *packetHandlerMap
-	added2 bool // AddConnRunner(hm2) happened
-	srt    bool // the server's stateless_reset_token transport parameter was processed
-	handed []c16Handed
-	conn  *c16Conn
-	g     *connIDGenerator
-	m     *connIDManager
-	idgen *c16IDGen
-	tick  int
-	maxT  int
-	capSq uint64
+	cfg       c16WorldCfg
+	tr        *Transport
+	hm        *packetHandlerMap
+	tr2       *Transport // paths: the Transport of the second path
+	hm2       *packetHandlerMap
+	added2    bool // AddConnRunner(hm2) happened
+	srt       bool // the server's stateless_reset_token transport parameter was processed
+	handed    []c16Handed
+	replCalls []c16ReplCall
+	conn      *c16Conn
+	g         *connIDGenerator
+	m         *connIDManager
+	idgen     *c16IDGen
+	tick      int
+	maxT      int
+	capSq     uint64
 
 	newFrames []*wire.NewConnectionIDFrame
 	retires   int
@@ -141,11 +144,41 @@ func (w *c16World) callbacks(i int, runner *packetHandlerMap) connRunnerCallback
 		AddConnectionID:    func(connID protocol.ConnectionID) { runner.Add(connID, s) },
 		RemoveConnectionID: runner.Remove,
 		ReplaceWithClosed: func(ids []protocol.ConnectionID, pkt []byte, expiry time.Duration) {
-			snap := append([]protocol.ConnectionID{}, ids...)
-			runner.ReplaceWithClosed(ids, pkt, expiry)
-			w.handed = append(w.handed, c16Handed{tr: i, ids: ids, snap: snap})
+			w.replCalls = append(w.replCalls, c16ReplCall{i, runner, ids, pkt, expiry})
 		},
 	}
+}
+
+// c16ReplCall is one ReplaceWithClosed call of the generator, on its way to a map.
+type c16ReplCall struct {
+	tr     int
+	runner *packetHandlerMap
+	ids    []protocol.ConnectionID
+	pkt    []byte
+	expiry time.Duration
+}
+
+// deliverRepl forwards the ReplaceWithClosed calls the generator just made. connRunners is a
+// Go map: with two Transports registered the real code calls them in either order, and
+// nothing happens between the calls, so forwarding them right after the generator's loop
+// in an order chosen by the explorer (second Transport first: op.B == 1) is one of the two
+// real executions, and both are explored.
+func (w *c16World) deliverRepl(secondFirst bool) {
+	sort.SliceStable(w.replCalls, func(a, b int) bool {
+		if secondFirst {
+			return w.replCalls[a].tr > w.replCalls[b].tr
+		}
+		return w.replCalls[a].tr < w.replCalls[b].tr
+	})
+	shared := len(w.replCalls) > 1
+	for _, c := range w.replCalls {
+		snap := append([]protocol.ConnectionID{}, c.ids...)
+		c.runner.ReplaceWithClosed(c.ids, c.pkt, c.expiry)
+		if shared { // a slice handed to one map only is that map's business
+			w.handed = append(w.handed, c16Handed{tr: c.tr, ids: c.ids, snap: snap})
+		}
+	}
+	w.replCalls = nil
 }
 
 func newC16World(cfg c16WorldCfg, maxT int, capSeq uint64) *c16World {
@@ -234,7 +267,12 @@ func (w *c16World) ops() []explore.Op {
 			ops = append(ops, explore.Op{N: "addpath", A: 0})
 		}
 		ops = append(ops, explore.Op{N: "addpath", A: 1}) // migrating back to the first Transport
-		ops = append(ops, explore.Op{N: "close", A: 0}, explore.Op{N: "close", A: 1}, explore.Op{N: "close", A: 2})
+		for k := 0; k <= 2; k++ {
+			ops = append(ops, explore.Op{N: "close", A: k})
+			if w.added2 && k < 2 {
+				ops = append(ops, explore.Op{N: "close", A: k, B: 1}) // the second Transport is told first
+			}
+		}
 		return ops
 	}
 	for s := 1; s <= 3; s++ {
@@ -365,8 +403,10 @@ func (w *c16World) step(op explore.Op) *explore.Fail {
 		switch op.A {
 		case 0:
 			w.g.ReplaceWithClosed(nil, period)
+			w.deliverRepl(op.B == 1)
 		case 1:
 			w.g.ReplaceWithClosed([]byte{0xcc}, period)
+			w.deliverRepl(op.B == 1)
 		case 2:
 			w.g.RemoveAll()
 		}
@@ -409,14 +449,14 @@ func (w *c16World) step(op explore.Op) *explore.Fail {
 		for _, p := range w.pending {
 			live[p.cid] = true
 		}
-		if !w.hc {
+		if !w.hc && !w.cfg.paths {
 			live[c16ClientDCID] = true
 		}
 	}
 	over := w.phase == 1 && (op.N == "close" && op.A == 2 || w.tick >= w.closeAt+c16ClosePeriod)
 	tokWant := map[protocol.StatelessResetToken]uint64{}
 	if w.phase == 0 {
-		if a := w.m.activeSequenceNumber; a > 0 {
+		if a := w.m.activeSequenceNumber; a > 0 || w.srt {
 			tokWant[c16PeerToken(a, false)] = a
 		}
 		for _, e := range w.m.pathProbing {
@@ -431,7 +471,7 @@ func (w *c16World) step(op explore.Op) *explore.Fail {
 	}
 	reachedN, standinN := 0, 0
 	for _, cid := range universe {
-		reached, retr := w.probeCID(cid)
+		reached, retr := w.probeCID(w.tr, cid)
 		if reached {
 			reachedN++
 		}
@@ -452,7 +492,7 @@ func (w *c16World) step(op explore.Op) *explore.Fail {
 	resetN := 0
 	for s := uint64(0); s <= 3; s++ {
 		tok := c16PeerToken(s, false)
-		hit := w.probeToken(tok)
+		hit := w.probeToken(w.tr, tok)
 		if hit {
 			resetN++
 		}
@@ -492,14 +532,106 @@ func (w *c16World) step(op explore.Op) *explore.Fail {
 		}
 		return explore.Failf("transport:left-after-close:"+strings.Fields(what)[0], "%v: %s, Transport.handlers still has %d entries (%s) and resetTokens %d", op, what, nH, w.handlerDump(), nT)
 	}
+	second := ""
+	if w.cfg.paths {
+		var fl *explore.Fail
+		if second, fl = w.observeSecond(op, over, live, tokWant, universe); fl != nil {
+			return fl
+		}
+	}
+	// frame condition: an id slice the generator handed to more than one map is also the
+	// other map's list of IDs to replace now and to remove at expiry: a map must not write to it
+	for _, h := range w.handed {
+		for i := range h.snap {
+			if len(h.ids) != len(h.snap) || h.ids[i] != h.snap[i] {
+				return explore.Failf(fmt.Sprintf("transport:handed-id-slice-modified:%s:transports=%d", op.N, len(w.g.connRunners)),
+					"%v: connIDGenerator.ReplaceWithClosed handed %v to the packetHandlerMap of transport %d (the same slice goes to every registered Transport and stays referenced by each expiry timer); it now reads %v", op, h.snap, h.tr+1, h.ids)
+			}
+		}
+	}
 	if over {
 		w.phase = 2
 	}
-	w.outcome = fmt.Sprintf("%s:%s ph=%d new=%d retire=%d reached=%d standin-retransmit=%d resets=%d handlers=%d tokens=%d", op.N, res, w.phase, len(w.newFrames), w.retires, reachedN, standinN, resetN, nH, nT)
+	w.outcome = fmt.Sprintf("%s:%s ph=%d new=%d retire=%d reached=%d standin-retransmit=%d resets=%d handlers=%d tokens=%d%s", op.N, res, w.phase, len(w.newFrames), w.retires, reachedN, standinN, resetN, nH, nT, second)
 	if op.N == "close" {
-		w.outcome += fmt.Sprintf(" kind=%d", op.A)
+		w.outcome += fmt.Sprintf(" kind=%d order=%d", op.A, op.B)
 	}
 	return nil
+}
+
+// observeSecond makes the observations of step on the Transport of the second path.
+// Statement, read leniently for a Transport that joined mid-history: every issued,
+// unretired ID reaches the connection; only live IDs (issued, not yet expired) do; before
+// AddConnRunner and after the closing period nothing is registered.
+func (w *c16World) observeSecond(op explore.Op, over bool, live map[protocol.ConnectionID]bool, tokWant map[protocol.StatelessResetToken]uint64, universe []protocol.ConnectionID) (string, *explore.Fail) {
+	must := map[protocol.ConnectionID]bool{}
+	if w.phase == 0 && w.added2 {
+		for s, c := range w.issued {
+			if !w.retired[s] {
+				must[c] = true
+			}
+		}
+	}
+	reachedN, standinN := 0, 0
+	for _, cid := range universe {
+		reached, retr := w.probeCID(w.tr2, cid)
+		if reached {
+			reachedN++
+		}
+		if retr {
+			standinN++
+		}
+		switch {
+		case w.phase == 0 && reached && !(w.added2 && live[cid]):
+			return "", explore.Failf(fmt.Sprintf("transport:path2:reached-not-live:%s:added=%v", op.N, w.added2), "%v: a datagram for connection ID %s arriving on the second Transport (added: %v) reaches the connection, but the ID is %s (ledger %s)", op, cid, w.added2, w.why(cid), w.ledger())
+		case w.phase == 0 && !reached && must[cid]:
+			return "", explore.Failf("transport:path2:live-not-reached:"+op.N, "%v: a datagram for the issued, unretired connection ID %s arriving on the second Transport does not reach the connection (ledger %s; handlers %s)", op, cid, w.ledger(), w.handlerDump(w.tr2))
+		case w.phase == 1 && reached && (over || w.why(cid) != "live"):
+			return "", explore.Failf(fmt.Sprintf("transport:path2:reached-after-close:%v", over), "%v: a datagram for connection ID %s (%s) arriving on the second Transport reaches the connection %d tick(s) after it was closed (closing period %d ticks)", op, cid, w.why(cid), w.tick-w.closeAt, c16ClosePeriod)
+		}
+	}
+	resetN := 0
+	for s := uint64(0); s <= 3; s++ {
+		tok := c16PeerToken(s, false)
+		hit := w.probeToken(w.tr2, tok)
+		if hit {
+			resetN++
+		}
+		_, want := tokWant[tok]
+		switch {
+		case w.phase == 0 && hit && !want:
+			return "", explore.Failf("transport:path2:reset-token-not-in-use:"+op.N, "%v: a stateless reset with the token of peer sequence number %d arriving on the second Transport destroys the connection, but the peer IDs in use are active=%d (token known: %v) probing=%v", op, s, w.m.activeSequenceNumber, w.srt, w.probing())
+		case over && hit:
+			return "", explore.Failf("transport:path2:reset-token-after-close", "%v: closing period over, a stateless reset with the token of peer sequence number %d arriving on the second Transport still reaches the connection", op, s)
+		}
+	}
+	w.tr2.mutex.Lock()
+	nH, nT := len(w.tr2.handlers), len(w.tr2.resetTokens)
+	var extra []string
+	for id, h := range w.tr2.handlers {
+		if w.phase == 0 && (!w.added2 || !live[id] || h != packetHandler(w.conn)) {
+			extra = append(extra, id.String())
+		}
+		delete(must, id)
+	}
+	for tok := range w.tr2.resetTokens {
+		if _, ok := tokWant[tok]; w.phase == 0 && !ok {
+			extra = append(extra, fmt.Sprintf("token %x", tok[:2]))
+		}
+	}
+	w.tr2.mutex.Unlock()
+	sort.Strings(extra)
+	switch {
+	case w.phase == 0 && (len(extra) > 0 || len(must) > 0):
+		return "", explore.Failf("transport:path2:map-mismatch:"+op.N, "%v: second Transport (added: %v): handlers %s; entries that are not live IDs of the connection / tokens not in use: %v; unretired IDs missing: %d (ledger %s)", op, w.added2, w.handlerDump(w.tr2), extra, len(must), w.ledger())
+	case over && (nH != 0 || nT != 0):
+		what := "closing period over"
+		if op.N == "close" {
+			what = "RemoveAll"
+		}
+		return "", explore.Failf("transport:path2:left-after-close:"+strings.Fields(what)[0], "%v: %s, the second Transport's handlers still has %d entries (%s) and resetTokens %d", op, what, nH, w.handlerDump(w.tr2), nT)
+	}
+	return fmt.Sprintf(" | path2 added=%v reached=%d standin-retransmit=%d resets=%d handlers=%d tokens=%d", w.added2, reachedN, standinN, resetN, nH, nT), nil
 }
 
 func (w *c16World) why(cid protocol.ConnectionID) string {
@@ -507,6 +639,9 @@ func (w *c16World) why(cid protocol.ConnectionID) string {
 	case c16ForeignCID:
 		return "foreign"
 	case c16ClientDCID:
+		if w.cfg.paths {
+			return "foreign"
+		}
 		for _, p := range w.pending {
 			if p.cid == cid {
 				return "live"
@@ -555,11 +690,15 @@ func (w *c16World) ledger() string {
 	return strings.Join(l, " ")
 }
 
-func (w *c16World) handlerDump() string {
-	w.tr.mutex.Lock()
-	defer w.tr.mutex.Unlock()
+func (w *c16World) handlerDump(trs ...*Transport) string {
+	tr := w.tr
+	if len(trs) == 1 {
+		tr = trs[0]
+	}
+	tr.mutex.Lock()
+	defer tr.mutex.Unlock()
 	var l []string
-	for id, h := range w.tr.handlers {
+	for id, h := range tr.handlers {
 		k := "?"
 		switch h := h.(type) {
 		case *c16Conn:
@@ -574,7 +713,7 @@ func (w *c16World) handlerDump() string {
 	sort.Strings(l)
 	s := strings.Join(l, ",") + "|"
 	var tl []string
-	for tok := range w.tr.resetTokens {
+	for tok := range tr.resetTokens {
 		tl = append(tl, fmt.Sprintf("%x", tok[:3]))
 	}
 	sort.Strings(tl)
@@ -590,12 +729,16 @@ func (w *c16World) key() string {
 	for _, p := range w.pending {
 		fmt.Fprintf(&sb, "%s@%d,", p.cid, p.at)
 	}
+	if w.cfg.paths {
+		fmt.Fprintf(&sb, "|path2 added=%v runners=%d srt=%v %s", w.added2, len(w.g.connRunners), w.srt, w.handlerDump(w.tr2))
+	}
 	return sb.String()
 }
 
 // c16Tpt is the BFS-facing instance: a recorded path, re-executed in one bubble per Apply.
 type c16Tpt struct {
 	t       *testing.T
+	cfg     c16WorldCfg
 	maxT    int
 	capSeq  uint64
 	path    []explore.Op
@@ -622,7 +765,7 @@ func (in *c16Tpt) exec() (fl *explore.Fail) {
 				fl = explore.Failf("panic:transport:"+strings.SplitN(msg, "\n", 2)[0], "panic while executing %v: %v", in.path, msg)
 			}
 		}()
-		w := newC16World(in.maxT, in.capSeq)
+		w := newC16World(in.cfg, in.maxT, in.capSeq)
 		for i, op := range in.path {
 			f := w.step(op)
 			if f != nil {
@@ -644,11 +787,28 @@ func (in *c16Tpt) Apply(op explore.Op) *explore.Fail {
 func (in *c16Tpt) Key() string     { return in.k }
 func (in *c16Tpt) Outcome() string { return in.outcome }
 
-func c16TptPart(name string, t *testing.T) explore.Part {
+func c16TptPart(name string, t *testing.T, cfg c16WorldCfg) explore.Part {
 	return c16Part(name, func(e explore.Env) explore.BFSSpec {
 		maxT, capSeq, depth := 3, uint64(3), 6
 		if e.Thorough() {
 			maxT, capSeq, depth = 4, 4, 7
+		}
+		if cfg.paths {
+			// close + the whole closing period must fit behind the shortest history with an ID
+			// retired before and another one retired after the second Transport was added
+			depth += 2
+			return explore.BFSSpec{
+				New: func() explore.Instance {
+					in := &c16Tpt{t: t, cfg: cfg, maxT: maxT, capSeq: capSeq}
+					fl := in.exec()
+					explore.Must(fl == nil, "initial state violates the oracle: %v", fl)
+					return in
+				},
+				MaxDepth:         depth,
+				PanicIsViolation: true,
+				Rule: fmt.Sprintf("BFS (depth %d) over the real connIDGenerator + connIDManager of a client-side connection wired to the packetHandlerMaps of TWO real Transports inside a synctest bubble; alphabet: AddConnRunner(second Transport) once at any point of the history, AddConnRunner(first Transport) again, SetMaxActiveConnIDs(2|4), peer RETIRE_CONNECTION_ID(seq 0..2) while highest < %d, RemoveRetiredConnIDs, the server's stateless_reset_token parameter, sleep one tick (<= %d), close by peer / local (each with the two Transports told in either order: connRunners is a map) / RemoveAll then sleep through the closing period; after every step one datagram per known/foreign connection ID and one stateless reset per peer token go through handlePacket of BOTH Transports; the id slices handed to the maps are compared with copies after every step",
+					depth, capSeq, maxT),
+			}
 		}
 		return explore.BFSSpec{
 			New: func() explore.Instance {
